@@ -85,6 +85,9 @@ def _parse_config_path(config_path: str) -> str:
   if spec is None:
     raise ValueError('Package not found', pkg)
   file_sys_path = spec.origin
+  if file_sys_path is None:
+    # Namespace packages (directories without __init__.py) have no origin.
+    raise ValueError('Package has no file system location', pkg)
   # file_sys_path often ends with __init__.py.
   path = os.path.join(os.path.dirname(file_sys_path), filename)
   return path
